@@ -13,7 +13,12 @@
       the intent is reverted, the put returns CErr) and with failing checkpoints; the general
       theorems instantiated with a nonempty [bad].  (The F6 schedule is in ConcFault.v.)
 
-   Sections 1-3 instantiate the fault parameters with nobad / false. *)
+   5. Ranged reads and iteration: a KGetRange racing an overwrite by a longer value (both
+      outcomes: the slice of the old value clamped to the old size; after the retry the slice
+      of the new value clamped to the CURRENT size) and a KIter racing a put (blocked while the
+      writer holds S exclusively; both snapshots occur).
+
+   Sections 1-3 and 5 instantiate the fault parameters with nobad / false. *)
 From Cas Require Import Base Codec SMap Index Conc.
 From CasProofs Require Import SMapProofs IndexProofs ConcInv ConcProofs ConcProgress ConcReads.
 From Coq Require Import List NArith Lia Bool.
@@ -163,7 +168,7 @@ Example C05_aba_now_returns_content :
   reachable toyH lex_cmp 100 nobad false progA [] g_A /\
   (* after the old schedule the reader is parked at the open under the read lock, carrying
      the CURRENT item of the key *)
-  tget (g_thr g_A) 2%nat = Some (mkT [] (GOpenL [1] (mkItem (toyH [10]) 1)) []) /\
+  tget (g_thr g_A) 2%nat = Some (mkT [] (GOpenL [1] (mkItem (toyH [10]) 1) MFull) []) /\
   g_R g_A = [2%nat] /\ g_S g_A = None /\
   (* its next step returns the content and releases the lock *)
   reachable toyH lex_cmp 100 nobad false progA [] g_A' /\
@@ -302,6 +307,87 @@ Proof.
   apply (C15_progress toyH lex_cmp lex_refl lex_eq lex_antisym lex_trans 100 badA true progC [] sched).
 Qed.
 
+(* ---- 5. ranged reads and iteration ---- *)
+(* thread 1 puts k := 3 bytes, overwrites it with 5 bytes, then puts a second key; thread 2 reads
+   the range [1, 4) of k; thread 3 iterates over the keys *)
+Definition progRI : list (nat * list ccall) :=
+  [(1%nat, [KPut [1] [10; 11; 12]; KPut [1] [20; 21; 22; 23; 24]; KPut [2] [30]]);
+   (2%nat, [KGetRange [1] 1 4]); (3%nat, [KIter])].
+
+Lemma progRI_nodup : NoDup (map fst progRI).
+Proof. cbn. repeat constructor; cbn; intuition discriminate. Qed.
+
+Lemma progRI_nocollide :
+  forall a b, In a (allc progRI []) -> In b (allc progRI []) -> toyH a = toyH b -> a = b.
+Proof. apply nocollide_list_sound. vm_compute. reflexivity. Qed.
+
+(* the reader looks up the OLD item (3 bytes) and parks at open_blob ... *)
+Definition schedRI0 : list nat := repeat 1%nat 9 ++ repeat 2%nat 3.
+(* ... the overwrite is applied but the old blob is not yet unlinked: the reader opens the old
+   blob and returns bytes [1, min 4 3) of the OLD value *)
+Definition schedRI_old : list nat := schedRI0 ++ repeat 1%nat 8 ++ [2%nat].
+(* ... the overwrite completes (old blob unlinked): the open fails with NotFound, the retry
+   looks the key up again and clamps the range with the size of the CURRENT item (5 bytes):
+   bytes [1, 4) of the NEW value, not [1, 3) *)
+Definition schedRI_new : list nat := schedRI0 ++ repeat 1%nat 10 ++ repeat 2%nat 3.
+
+Definition g_RI0 := crun toyH lex_cmp 100 nobad false (init_c progRI []) schedRI0.
+Definition g_RI_old := crun toyH lex_cmp 100 nobad false (init_c progRI []) schedRI_old.
+Definition g_RI_new := crun toyH lex_cmp 100 nobad false (init_c progRI []) schedRI_new.
+(* the reader one step before the end of the second schedule: under the shared lock, carrying
+   the current item *)
+Definition g_RI_new1 := crun toyH lex_cmp 100 nobad false (init_c progRI []) (removelast schedRI_new).
+
+(* the iteration races the put of the second key: thread 3 takes its call, then thread 1 runs
+   its third put up to the point where it holds the state lock exclusively *)
+Definition schedI0 : list nat := repeat 1%nat 19 ++ [3%nat].
+Definition g_I_blocked := crun toyH lex_cmp 100 nobad false (init_c progRI []) (schedI0 ++ repeat 1%nat 6).
+(* the iteration runs before the apply: one key *)
+Definition g_I_before :=
+  crun toyH lex_cmp 100 nobad false (init_c progRI []) (schedI0 ++ repeat 1%nat 5 ++ [3%nat]).
+(* the iteration runs after the apply (while the put is still unfinished): two keys *)
+Definition g_I_after :=
+  crun toyH lex_cmp 100 nobad false (init_c progRI []) (schedI0 ++ repeat 1%nat 7 ++ [3%nat]).
+
+Example range_read_races_longer_overwrite_and_iter_races_put :
+  (* the reader parked at open_blob with the old item *)
+  tget (g_thr g_RI0) 2%nat =
+    Some (mkT [] (GOpen [1] (mkItem (toyH [10; 11; 12]) 3) (MRange 1 4)) []) /\
+  (* outcome 1: the slice of the old value, the range clamped to its 3 bytes *)
+  tget (g_thr g_RI_old) 2%nat = Some (mkT [] Idle [CBytes (Some [11; 12])]) /\
+  km (g_idx g_RI_old) = [([1], mkItem (toyH [20; 21; 22; 23; 24]) 5)] /\
+  (* outcome 2: the retry carries the current item and returns the slice of the new value *)
+  tget (g_thr g_RI_new1) 2%nat =
+    Some (mkT [] (GOpenL [1] (mkItem (toyH [20; 21; 22; 23; 24]) 5) (MRange 1 4)) []) /\
+  g_R g_RI_new1 = [2%nat] /\
+  tget (g_thr g_RI_new) 2%nat = Some (mkT [] Idle [CBytes (Some [21; 22; 23])]) /\
+  g_R g_RI_new = [] /\
+  (* the iteration: blocked while the writer holds S exclusively ... *)
+  tget (g_thr g_I_blocked) 3%nat = Some (mkT [] IRead []) /\
+  g_S g_I_blocked = Some 1%nat /\
+  enabled toyH lex_cmp 100 nobad false g_I_blocked 3%nat = false /\
+  (* ... and both snapshots occur: without and with the key that is being put *)
+  tget (g_thr g_I_before) 3%nat = Some (mkT [] Idle [CKeys [[1]]]) /\
+  tget (g_thr g_I_after) 3%nat = Some (mkT [] Idle [CKeys [[1]; [2]]]) /\
+  (exists ts, tget (g_thr g_I_after) 1%nat = Some ts /\ finished_t ts = false).
+Proof. vm_compute. repeat split. eexists. split; reflexivity. Qed.
+
+(* the general theorems apply to this program: e.g. no reachable state reports a missing blob,
+   and at most 3 * 12 + 6 + 2 steps are taken by any schedule *)
+Example progRI_never_missing g : reachable toyH lex_cmp 100 nobad false progRI [] g ->
+  forall t ts, tget (g_thr g) t = Some ts -> ~ In CMissing (t_res ts).
+Proof.
+  apply (C05_read_never_fails toyH lex_cmp lex_refl lex_eq lex_antisym lex_trans 100 nobad false progRI
+           progRI_nodup [] I (fun h c (F : In (h, c) []) => match F with end) progRI_nocollide).
+Qed.
+
+Example progRI_step_bound : forall sched,
+  (csteps toyH lex_cmp 100 nobad false (init_c progRI []) sched <= 44)%nat.
+Proof.
+  intros sched.
+  apply (C15_progress toyH lex_cmp lex_refl lex_eq lex_antisym lex_trans 100 nobad false progRI [] sched).
+Qed.
+
 Print Assumptions g_seq_no_dangling.
 Print Assumptions g_mix_no_dangling.
 Print Assumptions g_mid_can_move.
@@ -316,3 +402,6 @@ Print Assumptions g_C_no_dangling.
 Print Assumptions g_C_mid_can_move.
 Print Assumptions prog2_quiescent_exact.
 Print Assumptions progC_step_bound.
+Print Assumptions range_read_races_longer_overwrite_and_iter_races_put.
+Print Assumptions progRI_never_missing.
+Print Assumptions progRI_step_bound.
